@@ -1,98 +1,65 @@
 /-
-  C17 — Binary object format round-trips every object file.   (partial: chunk level)
-  Proved: the fixed-width little-endian fields decode to the value written (for every width and value that fits);
-  a memory block chunk (any start, any words, up to 65535 of them) is read back as exactly that block and leaves the rest
-  of the stream untouched; likewise a line-map chunk with strictly ascending addresses; the word and address arrays are
-  recovered element by element.  Relocation addresses are written little-endian like everything else (fix F5).
-  Not proved: the label / source / relocation chunks (they need UTF-8 decode∘encode = id for Lean's `String.fromUTF8?`)
-  and the induction over the whole chunk stream; the correspondence check compares writer and reader with the
-  implementation on generated object files and requires read(write(o)) = o on both sides.
+  C17 — Binary object format round-trips every object file.
+  Proved: `deserialize (serialize o) = some o` for every well-formed object file `o` (`Bin.WF`): block map with strictly
+  increasing starts below 2^16 and fewer than 2^16 words per block; label names pairwise different, source positions and
+  name lengths below 2^64; relocation addresses pairwise different; with debug symbols: line blocks with strictly
+  increasing first lines, disjoint, fewer than 2^16 strictly ascending addresses each, the newline table consistent with
+  the source text; a symbol table only when it holds a label or debug symbols.  Every field is covered: memory image incl.
+  uninitialised words, labels, external flags, source positions, relocation entries (little-endian, fix F5), line
+  mapping, source text (UTF-8 decode∘encode = id for every string).  The equality is exact (same entry order), so it
+  holds a fortiori up to the unspecified order of the Rust hash maps.
+  Not proved: that every object file the assembler or the linker returns is `WF` (sortedness of the block map, uniqueness
+  of keys, strict ascent after fix F6 are established by those algorithms; proved here only for the empty file and by
+  example). That gap is what the correspondence check covers: 2,500+ object files from assembling and linking are
+  serialized and read back by implementation and model, and both must return the original.
 -/
-import Lc3V.Model.ObjBin
+import Lc3V.Lemmas.BinRoundtrip2
 set_option linter.unusedSimpArgs false
 namespace Lc3V.C17
 open Lc3V Bin
 
-theorem le_length (k n : Nat) : (le k n).length = k := by
-  induction k generalizing n with
-  | zero => rfl
-  | succ k ih => simp [le, ih]
+/-- the round trip, for every well-formed object file -/
+theorem roundtrip (o : ObjFile) (h : WF o) : deserialize (serialize o) = some o := deserialize_serialize o h
 
-/-- little-endian fields decode to what was written -/
-theorem unle_le (k n : Nat) (h : n < 256 ^ k) : unle (le k n) = n := by
-  induction k generalizing n with
-  | zero => simp at h; subst h; rfl
-  | succ k ih =>
-    simp only [le, unle]
-    have hb : (UInt8.ofNat (n % 256)).toNat = n % 256 := by
-      simp only [UInt8.toNat_ofNat']; omega
-    rw [hb, ih (n / 256) (by rw [Nat.pow_succ] at h; omega)]
-    omega
+/-- the empty object file is well-formed -/
+theorem wf_empty : WF ⟨[], none⟩ := by
+  refine ⟨trivial, ?_, ?_⟩
+  · intro b hb; cases hb
+  · intro t ht; cases ht
 
-theorem takeN_append (a b : Bytes) : takeN a.length (a ++ b) = some (a, b) := by
-  unfold takeN
-  simp
+/-- the hypotheses are satisfiable by a file with every kind of content: two blocks (one with an uninitialised word), a
+    local and an external label, a relocation entry, a line map and a source text with a non-ASCII character -/
+def sample : ObjFile :=
+  ⟨[(0x3000, [some 0x1021, none, some 0x0000]), (0x4000, [some 0xF025])],
+   some ⟨[(['A'], ⟨0x3000, 12, false⟩), (['X'], ⟨0, 40, true⟩)], [(0x3002, ['X'])],
+     some ⟨[(1, [0x3000, 0x3001, 0x3002]), (6, [0x4000])], SourceInfo.ofText ['é', '\n', 'x']⟩⟩⟩
 
-theorem takeN_append' (n : Nat) (a b : Bytes) (h : a.length = n) : takeN n (a ++ b) = some (a, b) := by
-  subst h; exact takeN_append a b
-
-theorem wordBytes_length (w : Option W) : (wordBytes w).length = 3 := by
-  cases w <;> simp [wordBytes, le]
-
-theorem flatMap_wordBytes_length (ws : List (Option W)) : (ws.flatMap wordBytes).length = 3 * ws.length := by
-  induction ws with
-  | nil => rfl
-  | cons w ws ih => simp only [List.flatMap_cons, List.length_append, wordBytes_length, ih, List.length_cons]; omega
-
-theorem unle2_toNat (w : W) : BitVec.ofNat 16 (unle (le 2 w.toNat)) = w := by
-  rw [unle_le 2 w.toNat (by have := w.isLt; omega)]
-  apply BitVec.eq_of_toNat_eq
-  rw [BitVec.toNat_ofNat]; exact Nat.mod_eq_of_lt w.isLt
-
-/-- the 3-byte word encoding is read back word by word -/
-theorem chunks3_words (ws : List (Option W)) : chunks3 (ws.flatMap wordBytes) = ws := by
-  induction ws with
-  | nil => rfl
-  | cons w ws ih =>
-    cases w with
-    | none => simp only [List.flatMap_cons, wordBytes, List.cons_append, List.nil_append, chunks3, ih]; simp
-    | some v =>
-      have h2 : le 2 v.toNat = [UInt8.ofNat (v.toNat % 256), UInt8.ofNat (v.toNat / 256 % 256)] := rfl
-      simp only [List.flatMap_cons, wordBytes, h2, List.cons_append, List.nil_append, chunks3, ih, if_true]
-      congr 2
-      have := unle2_toNat v
-      rw [h2] at this
-      exact this
-
-theorem chunks2_words (ws : List W) : chunks2 (ws.flatMap (fun w => le 2 w.toNat)) = ws := by
-  induction ws with
-  | nil => rfl
-  | cons v ws ih =>
-    have h2 : le 2 v.toNat = [UInt8.ofNat (v.toNat % 256), UInt8.ofNat (v.toNat / 256 % 256)] := rfl
-    simp only [List.flatMap_cons, h2, List.cons_append, List.nil_append, chunks2, ih]
-    congr 1
-    have := unle2_toNat v
-    rw [h2] at this
-    exact this
-
-/-- a block chunk is read back as that block, and the reader stops exactly at its end -/
-theorem read_block_chunk (st : RdSt) (start : Nat) (ws : List (Option W)) (rest : Bytes)
-    (hs : start < 65536) (hl : ws.length < 65536) :
-    readChunk st 0x00 (le 2 start ++ le 2 ws.length ++ ws.flatMap wordBytes ++ rest) =
-      some ({ st with blocks := insertSortedBy start ws st.blocks }, rest) := by
-  unfold readChunk
-  simp only [if_true]
-  rw [List.append_assoc, List.append_assoc, takeN_append' 2 _ _ (le_length 2 start)]
-  simp only [Option.bind_eq_bind, Option.bind_some, bind]
-  rw [takeN_append' 2 _ _ (le_length 2 ws.length)]
-  simp only [Option.bind_some]
-  rw [unle_le 2 ws.length (by omega), takeN_append' _ _ _ (flatMap_wordBytes_length ws)]
-  simp only [Option.bind_some, pure, unle_le 2 start (by omega), chunks3_words]
-
-theorem strictAsc_words_ok (ws : List W) (h : strictAsc ws = true) : strictAsc (chunks2 (ws.flatMap (fun w => le 2 w.toNat))) = true := by
-  rw [chunks2_words]; exact h
+example : WF sample := by
+  refine ⟨⟨by decide, trivial⟩, ?_, ?_⟩
+  · intro b hb
+    simp only [sample, List.mem_cons, List.mem_nil_iff, or_false] at hb
+    rcases hb with rfl | rfl <;> decide
+  · intro t ht
+    simp only [sample, Option.some.injEq] at ht
+    subst ht
+    refine ⟨by decide, ?_, by decide, ?_, ?_, Or.inl (by simp)⟩
+    · intro e he
+      simp only [List.mem_cons, List.mem_nil_iff, or_false] at he
+      rcases he with rfl | rfl <;> decide
+    · intro e he
+      simp only [List.mem_cons, List.mem_nil_iff, or_false] at he
+      subst he; decide
+    · intro d hd
+      simp only [Option.some.injEq] at hd
+      subst hd
+      refine ⟨⟨by decide, trivial⟩, by decide, ?_, rfl, by decide⟩
+      intro e he
+      simp only [List.mem_cons, List.mem_nil_iff, or_false] at he
+      rcases he with rfl | rfl <;> decide
 
 def obligations : List Lean.Name :=
-  [``le_length, ``unle_le, ``takeN_append, ``chunks3_words, ``chunks2_words, ``read_block_chunk, ``strictAsc_words_ok]
+  [``roundtrip, ``wf_empty, ``Lc3V.Bin.deserialize_serialize, ``Lc3V.Bin.fromUtf8_utf8, ``Lc3V.Bin.unle_le, ``Lc3V.Bin.chunks3_words,
+   ``Lc3V.Bin.chunks2_words, ``Lc3V.Bin.read_block, ``Lc3V.Bin.read_label, ``Lc3V.Bin.read_lineBlock, ``Lc3V.Bin.read_src,
+   ``Lc3V.Bin.read_rel, ``Lc3V.Bin.readChunks_items, ``Lc3V.Bin.fromBlocks_self, ``Lc3V.insAll_nil]
 
 end Lc3V.C17
